@@ -31,6 +31,9 @@ type patParser struct {
 	i int
 }
 
+// Expand replaces package aliases (ed., repo/) in a term or pattern string.
+func Expand(s string) string { return expandAliases(s) }
+
 func expandAliases(s string) string {
 	for k, v := range Aliases {
 		s = strings.ReplaceAll(s, k, v)
